@@ -1,18 +1,29 @@
 import argparse
 import importlib
+import json
 import os
+import signal
+import subprocess
 import sys
+import tempfile
 import traceback
 
+CRASH_SIGNALS = {signal.SIGSEGV: "SIGSEGV", signal.SIGABRT: "SIGABRT", signal.SIGBUS: "SIGBUS", signal.SIGFPE: "SIGFPE",
+                 signal.SIGILL: "SIGILL"}
+MAX_RESTARTS = 6
 
-def main():
+
+def _args():
     ap = argparse.ArgumentParser()
     ap.add_argument("pid")
     ap.add_argument("--tier", default=os.environ.get("VERIF_TIER") or "quick", choices=["quick", "thorough"])
     ap.add_argument("--seed", type=int, default=int(os.environ.get("VERIF_SEED") or 0))
     ap.add_argument("--replay")
     ap.add_argument("--selftest", action="store_true")
-    a = ap.parse_args()
+    return ap.parse_args()
+
+
+def child(a):
     try:
         from . import core
         mod = importlib.import_module(f"harness.props.{a.pid.lower()}")
@@ -25,6 +36,49 @@ def main():
         rc = 2
     sys.stdout.flush()
     sys.exit(rc)
+
+
+def parent(a):
+    """run the check in a child interpreter.  If the implementation under test kills the interpreter on some input
+    (segmentation fault / abort inside a C extension), that input - recorded by the child before every call of the
+    implementation - is a failing input: the child is restarted with the input marked as `crashed` (it is then judged
+    like an escaped exception: Spec false, replay written) instead of the check dying without a verdict."""
+    here = os.path.dirname(os.path.dirname(os.path.abspath(__file__)))
+    with tempfile.TemporaryDirectory(prefix="verif_run_") as d:
+        inflight, crashed = os.path.join(d, "inflight.json"), os.path.join(d, "crashed.json")
+        json.dump([], open(crashed, "w"))
+        env = dict(os.environ, VERIF_CHILD="1", VERIF_INFLIGHT=inflight, VERIF_CRASHED=crashed)
+        for attempt in range(MAX_RESTARTS + 1):
+            if os.path.exists(inflight):
+                os.remove(inflight)
+            rc = subprocess.call([sys.executable, "-m", "harness.main", *sys.argv[1:]], env=env, cwd=here)
+            if rc >= 0:
+                return rc
+            name = CRASH_SIGNALS.get(-rc)
+            if name is None or not os.path.exists(inflight):
+                print(f"HARNESS-ERROR property={a.pid} (check process ended with signal {-rc})")
+                return 2
+            lst = json.load(open(crashed))
+            lst.append({"signal": name, "case": json.load(open(inflight))})
+            json.dump(lst, open(crashed, "w"))
+            print(f"[{a.pid}] the implementation killed the interpreter ({name}) on one input; restarting with that input "
+                  f"recorded as a crash (restart {attempt + 1} of at most {MAX_RESTARTS + 1})", flush=True)
+        # still crashing after several restarts: one last attempt in which every remaining case of the kinds that crashed
+        # is recorded as "not run (crash kind)" instead of being executed, so that the run completes, judges the
+        # crashing inputs (Spec false, replay) and writes its evidence
+        env["VERIF_CRASH_KINDS"] = "1"
+        rc = subprocess.call([sys.executable, "-m", "harness.main", *sys.argv[1:]], env=env, cwd=here)
+        if rc >= 0:
+            return rc
+        print(f"HARNESS-ERROR property={a.pid} (check process ended with signal {-rc} after {MAX_RESTARTS + 1} restarts)")
+        return 2
+
+
+def main():
+    a = _args()
+    if os.environ.get("VERIF_CHILD") or os.environ.get("VERIF_NO_FORK"):
+        child(a)
+    sys.exit(parent(a))
 
 
 if __name__ == "__main__":
